@@ -132,9 +132,6 @@ theorem findPrev_max {l : List Doc} {x : Doc} (hx : x ∈ l) (hmax : ∀ d ∈ l
         · simp [hn]
 
 
-theorem markDeleted_nil (s : Shard) (t : Nat) : markDeleted s [] t = s := by
-  simp [markDeleted]
-
 theorem docOf_inj {k : String} {v w : Val} (h : docOf k v = docOf k w) : v = w := by
   cases v; cases w; simp [docOf] at h; simp [h]
 
@@ -207,6 +204,49 @@ theorem older_ids (h : ClusterOK c m b) (k : String) (i : DocId) :
     simpa using this
 end
 
+/-- `mem_markDeleted_uniform` with the trivial case of an empty id list. -/
+theorem mem_markDeleted_gen {s : Shard} {ids : List DocId} {t : Nat}
+    (hu : ids = [] ∨ ∃ x0 ∈ s, x0.id ∈ ids ∧ ∀ x ∈ s, x.id ∈ ids → x = x0) {y : Doc} :
+    y ∈ markDeleted s ids t ↔
+      ∃ x ∈ s, (x.id ∈ ids ∧ y = { x with del := t }) ∨ (x.id ∉ ids ∧ y = x) := by
+  rcases hu with rfl | ⟨x0, hx0, hid, huni⟩
+  · rw [markDeleted_nil]
+    constructor
+    · intro hy; exact ⟨y, hy, Or.inr ⟨by simp, rfl⟩⟩
+    · rintro ⟨x, hx, ⟨h, _⟩ | ⟨_, rfl⟩⟩
+      · simp at h
+      · exact hx
+  · exact mem_markDeleted_uniform hx0 hid huni
+
+/-- in a shard that is in step with the map, the ids the liaison lists for key `k` name at most the one live
+    document: the lookup limit of `buildDeleteFromTimeDocuments` cannot cut anything off. -/
+theorem older_uniform {s s' : Shard} {m : AMap} {b : Nat} {k : String} {older : List DocId} (hs : ShardOK s m b)
+    (h1 : ∀ i ∈ older, ∃ v, m k = some v ∧ i = (k, v.rev))
+    (h2 : ∀ v, m k = some v → (k, v.rev) ∈ older)
+    (hsub : ∀ x ∈ s', x.id ∈ older → x ∈ s) (hsup : ∀ x ∈ s, x.id ∈ older → x ∈ s') :
+    older = [] ∨ ∃ x0 ∈ s', x0.id ∈ older ∧ ∀ x ∈ s', x.id ∈ older → x = x0 := by
+  cases hm : m k with
+  | none =>
+    left
+    apply List.eq_nil_iff_forall_not_mem.2
+    intro i hi
+    obtain ⟨v, hv, _⟩ := h1 i hi
+    rw [hm] at hv; cases hv
+  | some v =>
+    right
+    have hl := hs.live k v hm
+    have hid : (docOf k v).id ∈ older := h2 v hm
+    refine ⟨docOf k v, hsup _ hl.1 hid, hid, ?_⟩
+    intro x hx hin
+    have hxs := hsub x hx hin
+    obtain ⟨v2, hv2, e⟩ := h1 _ hin
+    rw [hm] at hv2; cases hv2
+    have hk : x.key = k := by simpa [Doc.id] using congrArg Prod.fst e
+    have hr : x.rev = v.rev := by simpa [Doc.id] using congrArg Prod.snd e
+    rcases hl.2 x hxs hk with e1 | ⟨_, hlt⟩
+    · exact e1
+    · omega
+
 /-- one data node's part of a fault-free Apply: store the new document, tombstone the listed older ones. -/
 theorem shard_apply_ok {s : Shard} {m : AMap} {b now t : Nat} {k : String} {v' : Val} {older : List DocId}
     (hs : ShardOK s m b) (hb : b < now) (ht : 0 < t) (hrev : v'.rev = now)
@@ -221,12 +261,27 @@ theorem shard_apply_ok {s : Shard} {m : AMap} {b now t : Nat} {k : String} {v' :
     omega
   have older_key : ∀ i ∈ older, i.1 = k := by
     intro i hi; obtain ⟨v, _, e⟩ := h1 i hi; rw [e]
+  have hu := older_uniform (s' := upsert s (docOf k v')) hs h1 h2
+    (by
+      intro x hx hin
+      rcases mem_upsert.1 hx with ⟨hxs, _⟩ | rfl
+      · exact hxs
+      · exact absurd hin hnew)
+    (by
+      intro x hx hin
+      rw [mem_upsert]
+      left
+      refine ⟨hx, ?_⟩
+      rintro ⟨_, hr⟩
+      have := hs.bound x hx
+      simp [docOf] at hr
+      omega)
   -- every document afterwards comes from one before (or is the new one), with the same key / rev / content
   have origin : ∀ y ∈ markDeleted (upsert s (docOf k v')) older t,
       y = docOf k v' ∨ ∃ x ∈ s, x.key = y.key ∧ x.rev = y.rev ∧
         ((x.id ∈ older ∧ y.del = t) ∨ (x.id ∉ older ∧ y = x)) := by
     intro y hy
-    rw [mem_markDeleted] at hy
+    rw [mem_markDeleted_gen hu] at hy
     obtain ⟨x, hx, hxy⟩ := hy
     rw [mem_upsert] at hx
     rcases hx with ⟨hxs, _⟩ | rfl
@@ -240,7 +295,7 @@ theorem shard_apply_ok {s : Shard} {m : AMap} {b now t : Nat} {k : String} {v' :
       · rfl
   have keep : ∀ x ∈ s, x.id ∉ older → x ∈ markDeleted (upsert s (docOf k v')) older t := by
     intro x hx hnin
-    rw [mem_markDeleted]
+    rw [mem_markDeleted_gen hu]
     refine ⟨x, ?_, Or.inr ⟨hnin, rfl⟩⟩
     rw [mem_upsert]
     left
@@ -261,7 +316,7 @@ theorem shard_apply_ok {s : Shard} {m : AMap} {b now t : Nat} {k : String} {v' :
       simp only [if_true, Option.some.injEq] at hm
       subst hm
       constructor
-      · rw [mem_markDeleted]
+      · rw [mem_markDeleted_gen hu]
         exact ⟨docOf k'' v', by rw [mem_upsert]; exact Or.inr rfl, Or.inr ⟨hnew, rfl⟩⟩
       · intro y hy hyk
         rcases origin y hy with rfl | ⟨x, hx, hxk, hxr, hcase⟩
@@ -311,10 +366,11 @@ theorem shard_delete_ok {s : Shard} {m : AMap} {b t : Nat} {k : String} {older :
     ShardOK (markDeleted s older t) (setKey m k none) b := by
   have older_key : ∀ i ∈ older, i.1 = k := by
     intro i hi; obtain ⟨v, _, e⟩ := h1 i hi; rw [e]
+  have hu := older_uniform (s' := s) hs h1 h2 (fun x hx _ => hx) (fun x hx _ => hx)
   have origin : ∀ y ∈ markDeleted s older t, ∃ x ∈ s, x.key = y.key ∧ x.rev = y.rev ∧
         ((x.id ∈ older ∧ y.del = t) ∨ (x.id ∉ older ∧ y = x)) := by
     intro y hy
-    rw [mem_markDeleted] at hy
+    rw [mem_markDeleted_gen hu] at hy
     obtain ⟨x, hx, hxy⟩ := hy
     rcases hxy with ⟨hin, rfl⟩ | ⟨hnin, rfl⟩
     · exact ⟨x, hx, rfl, rfl, Or.inl ⟨hin, rfl⟩⟩
@@ -330,7 +386,7 @@ theorem shard_delete_ok {s : Shard} {m : AMap} {b t : Nat} {k : String} {older :
     · simp only [hk, if_false] at hm
       have hl := hs.live k'' v'' hm
       constructor
-      · rw [mem_markDeleted]
+      · rw [mem_markDeleted_gen hu]
         refine ⟨_, hl.1, Or.inr ⟨?_, rfl⟩⟩
         intro hin
         have := older_key _ hin
